@@ -27,12 +27,14 @@ import (
 	"net"
 	"os"
 	"path/filepath"
+	"reflect"
 	"sort"
 	"strconv"
 	"strings"
 	"sync"
 	"testing"
 	"time"
+	"unsafe"
 
 	publicrpcv1 "github.com/alephium/wormhole-fork/node/pkg/proto/publicrpc/v1"
 	spyv1 "github.com/alephium/wormhole-fork/node/pkg/proto/spy/v1"
@@ -231,6 +233,17 @@ func vSubscribeWith(s *spyServer, id int, req *spyv1.SubscribeSignedVAARequest, 
 }
 
 // publish with a deadline: "nil" | "err" | "panic" | "blocked" (still running; the returned channel yields the late result)
+// vCh finds a subscription's delivery channel by its TYPE (not by field name, so that a rename does not break the harness).
+func vCh(sub *subscription) chan message {
+	v := reflect.ValueOf(sub).Elem()
+	for i := 0; i < v.NumField(); i++ {
+		if f := v.Field(i); f.Type() == reflect.TypeOf((chan message)(nil)) {
+			return *(*chan message)(unsafe.Pointer(f.UnsafeAddr()))
+		}
+	}
+	panic("verif: subscription holds no `chan message` field")
+}
+
 func vPublish(s *spyServer, b []byte, deadline time.Duration) (string, chan string) {
 	c := make(chan string, 1)
 	go func() {
@@ -257,7 +270,7 @@ func vPublish(s *spyServer, b []byte, deadline time.Duration) (string, chan stri
 // before has then been delivered (channel and handler are FIFO). Returns the messages received before the sentinel.
 func vBarrier(vs *vSub, deadline time.Duration) ([][]byte, bool) {
 	select {
-	case vs.sub.ch <- message{vaaBytes: vSentinel}:
+	case vCh(vs.sub) <- message{vaaBytes: vSentinel}:
 	case <-time.After(deadline):
 		return vs.stream.take(), false
 	}
@@ -474,7 +487,7 @@ func (h *vHarness) deliverySequence() {
 					}
 					for _, x := range subs {
 						select {
-						case <-x.sub.ch:
+						case <-vCh(x.sub):
 						default:
 						}
 					}
@@ -519,7 +532,7 @@ func (h *vHarness) deliverySequence() {
 			x.stream.fail = true
 			x.stream.mu.Unlock()
 			select { // something to send, so that the handler meets the broken transport
-			case x.sub.ch <- message{vaaBytes: vSentinel}:
+			case vCh(x.sub) <- message{vaaBytes: vSentinel}:
 			case <-time.After(h.deadline):
 			}
 		} else {
@@ -592,7 +605,7 @@ func vDrainAll(stop chan struct{}, subs ...*vSub) {
 				continue // only subscribers that have disconnected: the others read for themselves
 			}
 			select {
-			case <-x.sub.ch:
+			case <-vCh(x.sub):
 			default:
 			}
 		}
